@@ -662,6 +662,13 @@ impl ConfigState {
         if let Some(patch_answers) = patch.http_answers.as_ref() {
             merge_custom_http_answers(&mut listener.http_answers, patch_answers);
         }
+        merge_answer_templates(&mut listener.answers, &patch.answers);
+        if let Some(v) = patch.elide_x_real_ip {
+            listener.elide_x_real_ip = Some(v);
+        }
+        if let Some(v) = patch.send_x_real_ip {
+            listener.send_x_real_ip = Some(v);
+        }
         // H2 flood knobs
         if let Some(v) = patch.h2_max_rst_stream_per_window {
             listener.h2_max_rst_stream_per_window = Some(v);
@@ -740,6 +747,15 @@ impl ConfigState {
         if let Some(ref alpn_wrapper) = patch.alpn_protocols {
             validate_alpn_protocols(&alpn_wrapper.values)?;
         }
+        if let Some(ref hsts) = patch.hsts {
+            // the worker refuses an HSTS block without an explicit `enabled`
+            if hsts.enabled.is_none() {
+                return Err(StateError::InvalidValue {
+                    field: "hsts",
+                    reason: "`enabled` must be set when an HSTS block is present",
+                });
+            }
+        }
         if let Some(ref v) = patch.sozu_id_header {
             validate_sozu_id_header(v)?;
         }
@@ -778,6 +794,13 @@ impl ConfigState {
         if let Some(patch_answers) = patch.http_answers.as_ref() {
             merge_custom_http_answers(&mut listener.http_answers, patch_answers);
         }
+        merge_answer_templates(&mut listener.answers, &patch.answers);
+        if let Some(v) = patch.elide_x_real_ip {
+            listener.elide_x_real_ip = Some(v);
+        }
+        if let Some(v) = patch.send_x_real_ip {
+            listener.send_x_real_ip = Some(v);
+        }
         // HTTPS-only knobs
         if let Some(ref alpn_wrapper) = patch.alpn_protocols {
             // Empty values vec = reset to default (runtime treats empty as default)
@@ -788,6 +811,9 @@ impl ConfigState {
         }
         if let Some(v) = patch.disable_http11 {
             listener.disable_http11 = Some(v);
+        }
+        if let Some(v) = patch.hsts {
+            listener.hsts = Some(v);
         }
         // H2 flood knobs
         if let Some(v) = patch.h2_max_rst_stream_per_window {
@@ -2728,6 +2754,20 @@ pub fn merge_custom_http_answers(
     merge_field!(answer_503);
     merge_field!(answer_504);
     merge_field!(answer_507);
+}
+
+/// Merge the `answers` template map of a listener patch into the listener's
+/// map: every non-empty body replaces or adds the entry for its status code,
+/// exactly as the worker does for its live configuration.
+pub fn merge_answer_templates(
+    target: &mut BTreeMap<String, String>,
+    patch: &BTreeMap<String, String>,
+) {
+    for (code, body) in patch {
+        if !body.is_empty() {
+            target.insert(code.clone(), body.clone());
+        }
+    }
 }
 
 /// Validate an `AlpnProtocols` patch: each value must be "h2" or "http/1.1".
